@@ -11,11 +11,12 @@ from sx import Sym
 RULE = ("seeded interleavings (length<=14) over 2-4 instances of each item-holding block class (OpticalSetupBlock, "
         "TemporalEventsData, EMG, Data3D, ForceTorque3D, ForcePlatformsCalibrationDataBlock, ForcePlatformsDataBlock): construct "
         "without items, construct with an own item list (where the constructor takes one), decode the same bytes again, add an "
-        "item, remove an item, edit an item in place (a sample, a label, an index), encode; items have 2 frames, in one run of eight "
+        "item, remove an item, edit an item in place (a sample, a label, an index), assign one block's item list (the list its getter returns, "
+        "a tuple of its items, or ONE list object given to two blocks) through the list setters of Data3D / ForceTorque3D / ForcePlatformsDataBlock, encode; items have 2 frames, in one run of eight "
         "1023/1024/1025/4096 frames (wholly missing, wholly present, with gaps); after every step the items (by identity) and the encoding of EVERY instance are compared "
         "with the store model. non-trivial = interleaving that edits one instance after a second one exists; distinct by (class, ops)")
 ASSUMPTIONS = ["object identity is CPython's; the store model is only as good as this tie",
-               "each constructor call is given its own list object (passing one list to two constructors is caller-induced aliasing)"]
+               "each CONSTRUCTOR call is given its own list object (passing one list to two constructors is caller-induced aliasing); the list SETTERS copy, so one list may be assigned to two blocks"]
 CLASSES = ["optical", "events", "emg", "data3d", "force3d", "platcalib", "platdata"]
 N = 2
 
@@ -176,6 +177,9 @@ def random_action(rng, n_insts):
     r = rng.random()
     if r < 0.22 or n_insts < 2:
         return ("construct", None if rng.random() < 0.55 else rng.randrange(0, 3))
+    if r < 0.30:
+        a, b = rng.sample(range(n_insts), 2)
+        return ("assign", a, b, rng.choice(["getter", "one-list", "tuple"]))
     if r < 0.34:
         return ("decode", rng.randrange(n_insts))
     if r < 0.52:
@@ -188,7 +192,10 @@ def random_action(rng, n_insts):
 def scripted_plans():
     """decode-twice scenarios run for every class, item length and item profile: build a block with two items, decode its
     bytes twice, edit an item of the first decode, decode the ORIGINAL bytes twice more, edit again, add to a decode"""
-    return [[("construct", 2), ("decode", 0), ("edit", 1, 0), ("decode", 0), ("edit", 3, 1), ("add", 2), ("decode", 0), ("remove", 5, 0), ("edit", 6, 0)]]
+    return [[("construct", 2), ("decode", 0), ("edit", 1, 0), ("decode", 0), ("edit", 3, 1), ("add", 2), ("decode", 0), ("remove", 5, 0), ("edit", 6, 0)],
+            # a list handed from one block to another (or to two blocks), then each block edited on its own
+            [("construct", 2), ("construct", None), ("assign", 1, 0, "getter"), ("add", 0), ("add", 1), ("remove", 0, 0), ("add", 1)],
+            [("construct", 1), ("construct", None), ("construct", 2), ("assign", 1, 2, "one-list"), ("add", 2), ("remove", 1, 0), ("add", 1), ("add", 0)]]
 
 
 def one_run(ctx, kind, rng, plan=None, steps=0):
@@ -234,6 +241,26 @@ def one_run(ctx, kind, rng, plan=None, steps=0):
                 k = act[2] if act[2] is not None else rng.randrange(len(its))
                 edit_item(kind, its[k], rng)
                 ops.append([Sym("edit"), i, k])
+            elif act[0] == "assign":
+                # only where the library has a list setter that fills a container of the instance's own
+                attr = {"data3d": "tracks", "force3d": "tracks", "platdata": "platforms"}.get(kind)
+                if attr is None or act[1] >= len(insts) or act[2] >= len(insts):
+                    continue
+                dst, src, how = act[1], act[2], act[3]
+                its = items_of(kind, insts[src])
+                mids = [ids[id(o)] for o in its]
+                if how == "getter" and kind != "platdata":
+                    setattr(insts[dst], attr, getattr(insts[src], attr))       # b.tracks = a.tracks
+                    ops.append([Sym("assign"), dst, mids])
+                elif how == "tuple":
+                    setattr(insts[dst], attr, tuple(its))
+                    ops.append([Sym("assign"), dst, mids])
+                else:
+                    one = list(its)                                             # ONE list object given to both blocks
+                    setattr(insts[src], attr, one)
+                    setattr(insts[dst], attr, one)
+                    ops += [[Sym("assign"), src, mids], [Sym("assign"), dst, mids]]
+                    obs.append(None)
             elif act[0] == "add":
                 i = act[1]
                 it = new_item(kind, rng)
@@ -297,7 +324,7 @@ def run(ctx):
             else:
                 snaps.append(o)
         assert len(snaps) == len(ops), (len(snaps), len(ops))
-        edits_after_second = any(op[0] in ("add", "remove", "edit") for op in ops[2:])
+        edits_after_second = any(op[0] in ("add", "remove", "edit", "assign") for op in ops[2:])
         ctx.case((kind, nframes, str(ops)), nontrivial=edits_after_second, sample=dict(kind=kind, frames=nframes, ops=[str(o)[:40] for o in ops][:8]),
                  tags=[kind, "long-items" if nframes > 16 else "short-items"] + [str(o[0]) for o in ops])
         rp = dict(kind=kind, frames=nframes, ops=[str(o) for o in ops])
@@ -311,9 +338,14 @@ def run(ctx):
                 break
             model_cells = [list(c[0]) for c in m]
             # oracle: every OTHER instance is unchanged (items and encoding)
-            if prev is not None and op[0] in ("add", "remove", "edit"):
+            if prev is not None and op[0] == "assign" and i >= 1 and ops[i - 1][0] == "assign" and snaps[i - 1] is None:
+                pass                      # second half of a one-list assignment to two blocks: both changed, by design
+            elif prev is not None and op[0] in ("add", "remove", "edit", "assign"):
                 hit = False
+                edited = prev[op[1]][0][op[2]] if op[0] == "edit" and op[2] < len(prev[op[1]][0]) else None
                 for j, (before, after) in enumerate(zip(prev, snap)):
+                    if edited is not None and edited in before[0]:
+                        continue          # an instance that holds the very object that was edited (after a list assignment)
                     if j != op[1] and before != after:
                         what = f"items {before[0]} -> {after[0]}" if before[0] != after[0] else "its encoding changed"
                         ctx.fail(f"{kind}: {'editing an item of' if op[0] == 'edit' else 'editing'} instance {op[1]} changed instance {j} ({what})", dict(rp, upto=i, frames=nframes),
